@@ -72,3 +72,23 @@ def sequence(a):
         except Exception as e:  # noqa
             out.append({'err': type(e).__name__})
     return out
+
+
+def shared_sources(a):
+    """Two or three path calls on one biadjacency matrix with the SAME caller-owned ndarray objects as source_row / source_col
+    (a caller who computes distances and then paths from the same sources); also returns the arrays as they are afterwards."""
+    m = mk_matrix(a['m'])
+    sr = None if a.get('source_row') is None else np.array(a['source_row'], dtype=int)
+    sc = None if a.get('source_col') is None else np.array(a['source_col'], dtype=int)
+    out = []
+    for kind in a['kinds']:
+        try:
+            if kind == 'dist':
+                d = get_distances(m, source_row=sr, source_col=sc)
+                out.append({'ok': [tolist(d[0]), tolist(d[1])]})
+            else:
+                p = get_shortest_path(m, source_row=sr, source_col=sc)
+                out.append({'ok': csr_edges(p)})
+        except Exception as e:  # noqa
+            out.append({'err': type(e).__name__})
+    return {'steps': out, 'source_row_after': tolist(sr), 'source_col_after': tolist(sc)}
